@@ -123,6 +123,12 @@ func (c *CRLConfig) Validate() error {
 		return errors.New("crl.cacheDuration must be greater than or equal to crl.renewPeriod")
 	}
 
+	// A cache duration of 1 or 2 ns (without a renew period) makes
+	// TickerDuration zero, and time.NewTicker panics on it.
+	if c.Enabled && c.CacheDuration != nil && c.CacheDuration.Duration > 0 && c.TickerDuration() <= 0 {
+		return errors.New("crl.cacheDuration is too short")
+	}
+
 	return nil
 }
 
